@@ -1,6 +1,118 @@
-(** Property C18 — placeholder replaced below by the sequential-model theorems. *)
-From Coq Require Import ZArith List.
-From LV Require Import Spec.Specs Proofs.SkipSeqEncoding.
-Theorem C18_stub : forall k s, zmem k s = true <-> In k s.
-Proof. exact zmem_In. Qed.
-Print Assumptions C18_stub.
+(** Property C18 — quiescent structure is well-formed and traversal is exact.
+    Only statements here; proofs live in LV.Proofs.{SkipSeqProofs,EllenSeqProofs,AvlSeqProofs}.
+
+    Quantifier covered by THEOREMS: quiescent points after ARBITRARY SEQUENTIAL histories (every finite sequence of
+    insert / update / upsert / erase / extract_min / extract_max, any keys and values, skip-list tower heights arbitrary),
+    for the sequential models of the skip list (one explicit list per level), of EllenBinTree (leaf-oriented tree
+    with the two sentinels) and of BronsonAVLTreeMap (partially external AVL tree with routing nodes, the repair loop
+    fix_height_and_rebalance and the four rotations exactly as the C++).  The models are tied to the real containers by
+    checks/C18.py: after every operation of long random sequential histories the dumped shape of the real structure
+    (keys, value presence, stored heights / internal keys / tower heights) must equal the model's shape.
+    Quiescent points after CONCURRENT histories are covered by the harness probes only (checks/C18.py). *)
+From Coq Require Import ZArith List Bool.
+From LV Require Import Base.Lin Spec.Specs Model.SkipSeq Model.EllenSeq Model.AvlSeq
+  Proofs.SkipSeqProofs Proofs.EllenSeqProofs Proofs.AvlSeqProofs.
+Import ListNotations.
+Local Open Scope Z_scope.
+
+(** ** the reference: a strictly sorted association list, and it is exactly MapSpec's contents
+    [spec_run] drives [Spec.Specs.map_step] (extract_min / extract_max erase the smallest / largest key). *)
+Theorem C18_sorted_list_is_spec_contents :
+  forall os : list sop,
+    ksorted (sl_run os) /\ forall k, sl_find k (sl_run os) = mfind k (spec_run os).
+Proof. exact sl_run_spec. Qed.
+Print Assumptions C18_sorted_list_is_spec_contents.
+
+(** ** skip list: every level strictly sorted (no key twice), every level a sub-list of the level below *)
+Theorem C18_skip_levels_are_sublists_seq :
+  forall os : list (sop * nat),
+    length (sk_run os) = MAXH /\ Forall inc_nodes (sk_run os) /\ chain (sk_run os).
+Proof. exact sk_run_inv. Qed.
+Print Assumptions C18_skip_levels_are_sublists_seq.
+
+(** level-0 traversal = the sorted duplicate-free list = the specification's contents; size = cardinality *)
+Theorem C18_skip_quiescent_traversal_exact_seq :
+  forall os : list (sop * nat), sk_traverse (sk_run os) = sl_run (map fst os).
+Proof. exact sk_run_traverse. Qed.
+Print Assumptions C18_skip_quiescent_traversal_exact_seq.
+
+(** ** EllenBinTree: global leaf-oriented search-tree order (over internal AND leaf keys), sentinels in place, the
+    library's check_consistency() holds, in-order leaves = the sorted list = the specification's contents *)
+Theorem C18_ellen_check_consistency_holds_seq :
+  forall os : list sop,
+    ebst (e_run os) /\ e_check_consistency (e_run os) = true /\
+    exists l, ksorted l /\ e_leaves (e_run os) = fin l ++ SENT.
+Proof.
+  intros os. destruct (e_run_inv os) as [(B & _ & L) _]. split; [exact B|]. split; [now apply ebst_check_consistency|exact L].
+Qed.
+Print Assumptions C18_ellen_check_consistency_holds_seq.
+
+Theorem C18_ellen_quiescent_traversal_exact_seq :
+  forall os : list sop, e_traverse (e_run os) = sl_run os.
+Proof. intros os. exact (proj2 (e_run_inv os)). Qed.
+Print Assumptions C18_ellen_quiescent_traversal_exact_seq.
+
+(** ** BronsonAVLTreeMap.  For every operation sequence that runs to completion ([a_run] = Some: the repair loop did
+    not run out of fuel and extract_min/extract_max did not hit the routing-leaf livelock): strict search-tree order
+    over all nodes (valued and routing), in-order traversal of the valued nodes = the sorted list = the
+    specification's contents. *)
+Theorem C18_bronson_order_and_traversal_exact_seq :
+  forall (os : list sop) (T : tree),
+    a_run os E = Some T -> bst T /\ a_traverse T = sl_run os.
+Proof. intros os T H. exact (a_run_spec os E T I H). Qed.
+Print Assumptions C18_bronson_order_and_traversal_exact_seq.
+
+(** item counter = cardinality: the three traversals have the length of the specification's sorted list *)
+Theorem C18_quiescent_size_agrees_seq :
+  (forall os, sk_size (sk_run os) = length (sl_run (map fst os))) /\
+  (forall os, e_size (e_run os) = length (sl_run os)) /\
+  (forall os T, a_run os E = Some T -> a_size T = length (sl_run os)).
+Proof.
+  repeat split.
+  - intros os. unfold sk_size. rewrite <- sk_run_traverse. unfold sk_traverse. now rewrite map_length.
+  - intros os. unfold e_size. now rewrite (proj2 (e_run_inv os)).
+  - intros os T H. unfold a_size. now rewrite (proj2 (a_run_spec os E T I H)).
+Qed.
+Print Assumptions C18_quiescent_size_agrees_seq.
+
+(** The full consistency statement for Bronson asked by the property (order AND |hL-hR| <= 1 AND exact stored heights
+    at every quiescent point) ... *)
+Definition bronson_check_consistency_holds_seq_statement : Prop :=
+  forall (os : list sop) (T : tree),
+    a_run os E = Some T -> bst T /\ balanced T = true /\ heights_exact T = true.
+
+(** ... is FALSE of the faithful model (and of the code: relaxed balance next to routing nodes, and the repair loop
+    stops as soon as the focused node needs nothing): 27 sequential operations leave node 7 with stored height 3,
+    real height 4, and subtrees of heights 3 and 1.  The same sequence on the real tree gives the same dump
+    (corpus/C18/bronson_seq_stale_stored_height.json; open known finding
+    bronson-avl-balance-not-restored-next-to-routing-node).  The order part is the theorem above. *)
+Theorem C18_bronson_avl_balance_refuted :
+  exists (os : list sop) (T : tree), a_run os E = Some T /\ balanced T = false.
+Proof. exact avl_balance_refuted. Qed.
+Print Assumptions C18_bronson_avl_balance_refuted.
+
+Theorem C18_bronson_stored_heights_refuted :
+  exists (os : list sop) (T : tree), a_run os E = Some T /\ heights_exact T = false.
+Proof. exact stored_heights_refuted. Qed.
+Print Assumptions C18_bronson_stored_heights_refuted.
+
+Theorem C18_bronson_check_consistency_statement_refuted : ~ bronson_check_consistency_holds_seq_statement.
+Proof.
+  intros H. destruct avl_balance_refuted as (os & T & R & B). destruct (H os T R) as (_ & B' & _). congruence.
+Qed.
+Print Assumptions C18_bronson_check_consistency_statement_refuted.
+
+(** ** non-vacuity: concrete non-trivial runs of the three models (rotations, routing nodes, towers, sentinels) *)
+Example C18_bronson_nonvacuous :
+  exists T, a_run [Ins 1 10; Ins 2 20; Ins 3 30; Ins 4 40; Ins 5 50; Del 2; Del 4; ExtMax; Ups 6 60] E = Some T /\
+            a_traverse T = [(1, 10); (3, 30); (6, 60)] /\ balanced T = true /\ heights_exact T = true.
+Proof. eexists. split; [vm_compute; reflexivity|]. vm_compute. repeat split. Qed.
+
+Example C18_ellen_nonvacuous :
+  e_traverse (e_run [Ins 5 50; Ins 3 30; Ins 8 80; Del 5; Ups 4 40; ExtMin; ExtMax]) = [(4, 40)].
+Proof. vm_compute. reflexivity. Qed.
+
+Example C18_skip_nonvacuous :
+  let s := sk_run [(Ins 5 50, 3%nat); (Ins 3 30, 1%nat); (Ins 8 80, 8%nat); (Del 5, 1%nat); (Ups 4 40, 2%nat)] in
+  sk_traverse s = [(3, 30); (4, 40); (8, 80)] /\ map (map nkey) (firstn 3 s) = [[3; 4; 8]; [4; 8]; [8]].
+Proof. vm_compute. split; reflexivity. Qed.
